@@ -23,12 +23,19 @@ compiler (Model/Compile.lean) and the VM (Model/VM.lean). Tied to the code by th
   to execute (`run` is a no-op), frames/loops/builders above the context marks are gone, the data stack,
   the variables, the dictionary and the code are untouched. Hence the failed line is not re-executed.
 
+* `rejected_source_then_any_history` — the follow-up, also for all inputs: the interpreter that was given the rejected
+  source and the one that never saw it give the same answers (same errors) to ANY later history of sources and REPL
+  aborts, print the same text, and stay equal in everything but the meter, the stop flag and the last-token marker
+  (`later_twin`; Proofs/VMGhost.lean generated from the VMSim templates, Proofs/SessionGhost.lean: every function of
+  the session model respects the relation). Hypothesis: no instruction limit (with one, what the rejected source's
+  meta blocks executed stays counted — that is C14, and intended).
+
 Not covered by a theorem (covered by correspondence + oracle only): the lexer-level part of "unread text is
 never executed" (the model takes a token list, so unread text is dropped by construction; `include` is
-outside the model), and the equivalence of the follow-up probes in the two histories (a consequence of
-state equality for a deterministic interpreter; checked on the implementation by the C10 oracle).
+outside the model).
 -/
 import XehModel.Proofs.SessionUnwind
+import XehModel.Proofs.SessionGhost
 
 namespace Xeh.C10
 open Xeh Xeh.Mach Xeh.Compile Xeh.Session Xeh.Session.Sess
@@ -106,6 +113,145 @@ theorem abort_keeps (s : Sess) :
     `abort_run` the instruction pointer is where the next `compile` starts emitting -/
 theorem abort_ip (s : Sess) : s.abortRun.m.ctx.ip = s.abortRun.m.code.length := rfl
 
+/-! ### every later source behaves as if the rejected one had never been submitted
+
+`rejected_source_restores` leaves four fields different. Nothing the interpreter does afterwards can tell: the two
+interpreters — the one that saw the rejected source and the one that did not — give the same answers to any further
+history of sources and REPL aborts, print the same text, and stay equal in everything but those fields.
+(No instruction limit: with a limit, what the rejected source's meta blocks executed stays counted — C14 — and a later
+source may hit the limit earlier. That is the one observable difference, and it is intended.) -/
+
+/-- what may happen to an interpreter later on -/
+inductive Later where
+  /-- a further source is submitted (`eval` or `compile`, or a REPL line) -/
+  | source (mode : Mode) (toks : List Tok)
+  /-- the REPL's `abort_run` after a line that failed at run time -/
+  | abort
+
+/-- what the user sees of it -/
+inductive Seen where
+  | done
+  | rejected (e : Xerr)
+  | failed (e : Xerr)
+  | panic (p : String)
+  | aborted
+
+/-- a history of later events: what was seen, and the interpreter afterwards; `none` when the model has no answer (a
+    word outside it, or the fuel of the model's `run`) -/
+def later (fuel : Nat) : List Later → Sess → Option (List Seen × Sess)
+  | [], s => some ([], s)
+  | .abort :: rest, s => (later fuel rest s.abortRun).map fun r => (.aborted :: r.1, r.2)
+  | .source mode toks :: rest, s =>
+    match s.buildSource fuel mode toks with
+    | .done s' => (later fuel rest s').map fun r => (.done :: r.1, r.2)
+    | .rejected e s' => (later fuel rest s').map fun r => (.rejected e :: r.1, r.2)
+    | .failed e s' => (later fuel rest s').map fun r => (.failed e :: r.1, r.2)
+    | .panic p s' => (later fuel rest s').map fun r => (.panic p :: r.1, r.2)
+    | .unsupported _ => none
+    | .timeout => none
+
+/-- two interpreters that differ only in the meter, the stop flag, the last-token marker, and in what they had printed
+    (`o`, `o'`) before they started printing the same text -/
+def Twin (o o' : List Char) (x y : Sess) : Prop := ∃ z, GSt o x z ∧ GSt o' y z
+
+/-- what `Twin` says, spelled out -/
+theorem Twin.spec {o o' : List Char} {x y : Sess} (h : Twin o o' x y) :
+    ∃ d, x.m.out = o ++ d ∧ y.m.out = o' ++ d ∧
+      y = { x with m := { x.m with meter := y.m.meter, out := y.m.out, aboutToStop := y.m.aboutToStop },
+                   lastTok := y.lastTok } := by
+  obtain ⟨z, h1, h2⟩ := h
+  obtain ⟨a1, a2⟩ := GS.spec h1
+  obtain ⟨b1, b2⟩ := GS.spec h2
+  refine ⟨z.m.out, a1, b1, ?_⟩
+  obtain ⟨xm, _, _, _, _, _⟩ := x
+  obtain ⟨ym, _, _, _, _, _⟩ := y
+  obtain ⟨zm, _, _, _, _, _⟩ := z
+  cases xm; cases ym; cases zm
+  simp only [Sess.mk.injEq, Mach.mk.injEq] at a2 b2 ⊢
+  simp_all
+
+/-- **twins stay twins**, and are told the same: any history of sources and aborts -/
+theorem later_twin {o o' : List Char} (fuel : Nat) (evs : List Later)
+    (hmodes : ∀ mode toks, Later.source mode toks ∈ evs → mode ≠ .metaEval) :
+    ∀ x y : Sess, Twin o o' x y →
+      match later fuel evs x, later fuel evs y with
+      | some (a, x'), some (b, y') => a = b ∧ Twin o o' x' y'
+      | none, none => True
+      | _, _ => False := by
+  induction evs with
+  | nil => intro x y h; exact ⟨rfl, h⟩
+  | cons ev rest ih =>
+    have ih' := ih (fun mode toks hmem => hmodes mode toks (List.mem_cons_of_mem _ hmem))
+    have lift : ∀ (sn : Seen) (x' y' : Sess), Twin o o' x' y' →
+        match (later fuel rest x').map (fun r => (sn :: r.1, r.2)), (later fuel rest y').map (fun r => (sn :: r.1, r.2)) with
+        | some (a, x''), some (b, y'') => a = b ∧ Twin o o' x'' y''
+        | none, none => True
+        | _, _ => False := by
+      intro sn x' y' ht
+      have := ih' x' y' ht
+      revert this
+      cases later fuel rest x' <;> cases later fuel rest y' <;> simp only [Option.map] <;> intro this
+      · trivial
+      · exact this
+      · exact this
+      · exact ⟨by rw [this.1], this.2⟩
+    intro x y ⟨z, h1, h2⟩
+    cases ev with
+    | abort =>
+      simp only [later]
+      exact lift .aborted _ _ ⟨z.abortRun, gs_abortRun h1, gs_abortRun h2⟩
+    | source mode toks =>
+      have hm := hmodes mode toks List.mem_cons_self
+      have r1 := gs_buildSource fuel mode hm toks x z h1
+      have r2 := gs_buildSource fuel mode hm toks y z h2
+      simp only [later]
+      revert r1 r2
+      cases z.buildSource fuel mode toks <;> cases x.buildSource fuel mode toks <;>
+        cases y.buildSource fuel mode toks <;> intro r1 r2 <;>
+        first
+          | exact r1.elim
+          | exact r2.elim
+          | trivial
+          | skip
+      · exact lift .done _ _ ⟨_, r1.toGSt, r2.toGSt⟩
+      · obtain ⟨e1, g1⟩ := r1; obtain ⟨e2, g2⟩ := r2; subst e1 e2
+        exact lift (.rejected _) _ _ ⟨_, g1.toGSt, g2.toGSt⟩
+      · obtain ⟨e1, g1⟩ := r1; obtain ⟨e2, g2⟩ := r2; subst e1 e2
+        exact lift (.failed _) _ _ ⟨_, g1.toGSt, g2.toGSt⟩
+      · obtain ⟨e1, g1⟩ := r1; obtain ⟨e2, g2⟩ := r2; subst e1 e2
+        exact lift (.panic _) _ _ ⟨_, g1.toGSt, g2.toGSt⟩
+
+/-- **C10, the follow-up.** Take the interpreter that was given a rejected source and the interpreter that never saw it.
+    Whatever is submitted afterwards — any number of sources in eval or compile mode, each of which may build, be
+    rejected in turn, fail at run time, with REPL aborts in between — the two give the same answer to every one of
+    them (the same errors), print the same text `d`, and end up equal in everything but the meter, the stop flag and
+    the last-token marker. -/
+theorem rejected_source_then_any_history (fuel : Nat) (mode : Mode) (toks : List Tok) (s s' : Sess) (e : Xerr)
+    (idle : Idle s) (hmode : mode ≠ .metaEval) (hlim : s.m.insnLimit = none)
+    (h : s.buildSource fuel mode toks = .rejected e s')
+    (fuel2 : Nat) (evs : List Later) (hmodes : ∀ mode toks, Later.source mode toks ∈ evs → mode ≠ .metaEval) :
+    match later fuel2 evs s, later fuel2 evs s' with
+    | some (a, r), some (b, r') =>
+      a = b ∧ ∃ d, r.m.out = s.m.out ++ d ∧ r'.m.out = s'.m.out ++ d ∧
+        r' = { r with m := { r.m with meter := r'.m.meter, out := r'.m.out, aboutToStop := r'.m.aboutToStop },
+                      lastTok := r'.lastTok }
+    | none, none => True
+    | _, _ => False := by
+  have hr := rejected_source_restores fuel mode toks s s' e idle hmode h
+  let z : Sess := { s with m := { s.m with out := [] } }
+  have t0 : Twin s.m.out s'.m.out s s' := by
+    refine ⟨z, ?_, ?_⟩
+    · exact GS.ofSpec (by exact hlim) (by simp [z]) (by simp [z])
+    · refine GS.ofSpec (by exact hlim) (by simp [z]) ?_
+      rw [hr]
+  have := later_twin fuel2 evs hmodes s s' t0
+  revert this
+  cases later fuel2 evs s <;> cases later fuel2 evs s' <;> intro this
+  · trivial
+  · exact this
+  · exact this
+  · exact ⟨this.1, this.2.spec⟩
+
 /-! ### the hypotheses are satisfiable, the theorems are not vacuous -/
 
 /-- the empty session is idle -/
@@ -116,5 +262,11 @@ example : Idle ({} : Sess) := ⟨⟨Nat.le_refl _, Nat.le_refl _, Nat.le_refl _,
 example : ∃ e s', ({} : Sess).buildSource 5 .eval [.lit (.int 1), .word "foo", .lit (.int 2)] = .rejected e s' := by
   simp [Sess.buildSource, Sess.build1, tokens, Sess.visible, Sess.visLen, CState.topFun, Sess.ofC, buildWord, Sess.toC, cerr, andRun,
     Sess.metaRun, Sess.contextOpen, Sess.emit]
+
+/-- the follow-up theorem is about histories that have answers: a later source is built, a second one is
+    rejected in turn, and the REPL aborts -/
+example : ((later 5 [.source .compile [.lit (.int 1)], .source .compile [.word "foo"], .abort] ({} : Sess)).map (·.1)).isSome = true := by
+  simp [later, Sess.buildSource, Sess.build1, tokens, Sess.visible, Sess.visLen, CState.topFun, Sess.ofC, buildWord, Sess.toC, cerr,
+    andRun, Sess.metaRun, Sess.contextOpen, Sess.emit, Sess.contextClose, Sess.hasPendingFlow, Sess.fromC]
 
 end Xeh.C10
